@@ -9,9 +9,26 @@ only = args[args.index('--only')+1] if '--only' in args else ''
 jobs = int(args[args.index('--jobs')+1]) if '--jobs' in args else 2
 allchecks = '--all-checks' in args
 env = dict(os.environ, GOWORK='off', GOFLAGS='-mod=readonly', GOPROXY='off', GOSUMDB='off', GOTOOLCHAIN='local')
+import json, re, fnmatch
+PROPS = [json.loads(l) for l in open('/verif/properties.jsonl')]
+def anchored(patch):
+    """checks whose anchored files a patch touches (plus the three whole-module ones)"""
+    files = set(re.findall(r'^\+\+\+ b/(\S+)', open(patch).read(), re.M))
+    out = {'C15', 'C18', 'C20'}
+    for p in PROPS:
+        for a in p['anchors']['files']:
+            a = a.split(' ')[0]
+            if any(f == a or fnmatch.fnmatch(f, a) for f in files):
+                out.add(p['id'])
+    return sorted(out)
 def run(patch):
     name = os.path.basename(patch)[:-6]
-    props = ['C%02d' % i for i in range(1, 21)] if allchecks or name.startswith('ALL-') else name.split('-')[0].split('+')
+    if allchecks:
+        props = ['C%02d' % i for i in range(1, 21)]
+    elif name.startswith('ALL-'):
+        props = anchored(patch)
+    else:
+        props = name.split('-')[0].split('+')
     tmp = os.environ.get('TMPDIR', '/tmp')
     d = tempfile.mkdtemp(prefix='verif-ben.', dir=tmp)
     out = tempfile.mkdtemp(prefix='verif-out.', dir=tmp)
